@@ -653,6 +653,36 @@ class World(BaseWorld):
     def set_busy_hook(self, cache, fn):
         cache._con.db.busy_hook = fn
 
+    # ---- out-of-band damage (C17)
+    def damage_file(self, cache, rel, deleted, new_size):
+        f = self.fs.files[posixpath.join(cache._directory, rel)]
+        f.exists = sx.simp(sx.And(f.exists, sx.Not(deleted)))
+        f.size = new_size
+
+    def add_extra(self, cache, rel, exists, size=0, is_dir=False):
+        p = posixpath.join(cache._directory, rel)
+        if is_dir:
+            self.fs.add_dir(p)
+        else:
+            self.fs.add_file(p, content=b'?', size=size, exists=exists)
+
+    def bump_counter(self, cache, name, delta):
+        db = cache._con.db
+        for r in db.committed.tables['Settings']:
+            if db.intern.lookup(sqlmodel.TEXT, sqlmodel.frac_of(r.c['key'].num)) == name:
+                r.c['value'] = Cell(sqlmodel.INT, sx.AddR(r.c['value'].num, delta))
+
+    def dir_listing(self, cache):
+        """{dir relative path: (subdirs, [(file, exists)])} for the oracle of check()"""
+        d0 = cache._directory
+        out = {}
+        for d in sorted(self.fs.dirs):
+            if d == d0 or d.startswith(d0 + '/'):
+                subs = [p for p in self.fs.dirs if posixpath.dirname(p) == d]
+                files = [(p, f.exists) for p, f in self.fs.files.items() if posixpath.dirname(p) == d and f.exists is not False]
+                out[d] = (subs, files)
+        return out
+
     def recover(self):
         """the process died: SQLite keeps the last committed state and the lock is released (assumed contract);
         the file system stays as it is"""
